@@ -3,8 +3,6 @@ import Fv.Lemmas.SpmcBSafeG
 namespace Fv.Chan.SpmcB
 open Fv.Chan.LeftRightB (upd upd_apply upd_same)
 
-def idleLike (c : Core) : Prop := c.head = c.sent.length ∧ c.dirty = false
-
 def inWr : SPC → Bool
   | .wSeqLd _ _ _ _ => true
   | .wVal _ _ _ _ _ => true
@@ -12,17 +10,42 @@ def inWr : SPC → Bool
   | .wHeadSt _ _ _ => true
   | _ => false
 
-theorem idle_of_sFact {c : Core} {q : SPC} (h : sFact c q) (hw : inWr q = false) : idleLike c := by
-  cases q <;> simp only [sFact, inWr] at h hw <;> first | exact ⟨h.1, h.2.1⟩ | exact ⟨h.1, h.2⟩ | cases hw
+/-- control states that are certainly part of a send (the handle is not closed) -/
+def sendQ : SPC → Bool
+  | .sFlag _ => false
+  | .sHead _ => false
+  | .sEnter _ _ _ => false
+  | .sScan _ _ _ _ _ _ => false
+  | .sHead2 _ _ _ _ => false
+  | .sExit _ _ _ _ _ => false
+  | .cFlag _ => false
+  | .cStore => false
+  | .cLock _ => false
+  | .cWake _ _ => false
+  | .cUnlock _ => false
+  | _ => true
 
-/-- a control state that needs to know nothing but "no write in progress" -/
-def PlainPC (p : PC) : Prop := ∀ c q', p = .snd q' → idleLike c → sFact c q'
+theorem idle_of_sFact {c : Core} {q : SPC} (h : sFact c q) (hw : inWr q = false) : idleLike c := by
+  cases q <;> simp only [sFact, inWr] at h hw <;> first | exact h | exact h.1 | cases hw
+
+theorem open_of_sFact {c : Core} {q : SPC} (h : sFact c q) (hw : sendQ q = true) : c.sclosed = false := by
+  cases q <;> simp only [sFact, sendQ] at h hw <;> first | exact h.2 | exact h.2.1 | exact h.2.2.2.2.2 | exact h.2.2.2.2.2.2 | exact h.2.2.2 | cases hw
+
+/-- a control state that needs to know only "no write in progress, handle open" -/
+def PlainPC (p : PC) : Prop := ∀ c q', p = .snd q' → idleLike c → c.sclosed = false → sFact c q'
+
+/-- a control state of the close path -/
+def PlainC (p : PC) : Prop := ∀ c q', p = .snd q' → idleLike c → sFact c q'
 
 theorem plain_ret (res : Res) : PlainPC (.ret res) := by intro c q' e; cases e
+theorem plainC_ret (res : Res) : PlainC (.ret res) := by intro c q' e; cases e
 
 syntax "plain_snd" : tactic
 macro_rules | `(tactic| plain_snd) => `(tactic|
-  (intro c q' e hi; cases e; simp only [sFact]; first | exact hi | exact ⟨hi.1, hi.2⟩))
+  (intro c q' e hi hc; cases e; simp only [sFact]; first | exact ⟨hi, hc⟩ | exact ⟨hi, fun _ => hc⟩ | exact hi))
+syntax "plainC_snd" : tactic
+macro_rules | `(tactic| plainC_snd) => `(tactic|
+  (intro c q' e hi; cases e; simp only [sFact]; exact hi))
 
 theorem plain_retryPC (x : SCtx) : PlainPC (retryPC x) := by unfold retryPC; split <;> plain_snd
 theorem plain_dkCont (d : DK) : PlainPC (dkCont d) := by
@@ -38,12 +61,26 @@ syntax "plain_tac" : tactic
 macro_rules | `(tactic| plain_tac) => `(tactic|
   first | apply plain_ret | apply plain_retryPC | apply plain_dkCont | apply plain_afterPark
         | apply plain_afterWrite | apply plain_wakeOr | plain_snd)
+syntax "plainC_tac" : tactic
+macro_rules | `(tactic| plainC_tac) => `(tactic| first | apply plainC_ret | plainC_snd)
 
 /-- sender step that leaves the core alone and moves to a plain control state -/
 theorem safe_S_plain {s s' : State} {t : Nat} {q : SPC} {p : PC} (ha : InvA s) (hs : Safe s) (hpc : s.pc t = .snd q)
     (hpc' : s'.pc = upd s.pc t p) (hso : s'.sOwner = if isRet p then none else s.sOwner)
     (hro : s'.rOwner = s.rOwner) (hrv : s'.resv = s.resv) (hcore : s'.core = s.core) (hp : okS p)
-    (hpl : PlainPC p) (hw : inWr q = false) : Safe s' := by
+    (hpl : PlainPC p) (hw : inWr q = false) (hcl : s.core.sclosed = false) : Safe s' := by
+  have hi := idle_of_sFact (hs.sf t q hpc) hw
+  refine safe_S ha hs hpc hpc' hso hro hrv hp (hcore ▸ hs.g) ?_ ?_ ?_
+  · intro q' e; rw [hcore]; exact hpl _ q' e hi hcl
+  · intro res _
+    have : s'.core.head = s'.core.sent.length ∧ s'.core.dirty = false := by rw [hcore]; exact hi
+    exact this
+  · intro u r q' h; rw [hcore]; exact h
+
+theorem safe_S_plainC {s s' : State} {t : Nat} {q : SPC} {p : PC} (ha : InvA s) (hs : Safe s) (hpc : s.pc t = .snd q)
+    (hpc' : s'.pc = upd s.pc t p) (hso : s'.sOwner = if isRet p then none else s.sOwner)
+    (hro : s'.rOwner = s.rOwner) (hrv : s'.resv = s.resv) (hcore : s'.core = s.core) (hp : okS p)
+    (hpl : PlainC p) (hw : inWr q = false) : Safe s' := by
   have hi := idle_of_sFact (hs.sf t q hpc) hw
   refine safe_S ha hs hpc hpc' hso hro hrv hp (hcore ▸ hs.g) ?_ ?_ ?_
   · intro q' e; rw [hcore]; exact hpl _ q' e hi
@@ -52,36 +89,44 @@ theorem safe_S_plain {s s' : State} {t : Nat} {q : SPC} {p : PC} (ha : InvA s) (
     exact this
   · intro u r q' h; rw [hcore]; exact h
 
-
 theorem hOK_self (k : ScanK) (h : Nat) : hOK k h h := by cases k <;> simp [hOK]
 theorem hOK2_self (k : ScanK) (h : Nat) : hOK2 k h h := by cases k <;> simp [hOK2]
-
-/-- `rFact` is unchanged when the receiver-visible part of the core is -/
-theorem rFact_same_S {c c' : Core} (hn : c'.nextCell = c.nextCell) (hrv : c'.resv = c.resv)
-    (hcl : c'.rclosed = c.rclosed) (hcur : c'.cur = c.cur) (hc0 : c'.c0 = c.c0) (hgot : c'.got = c.got)
-    (hdata : c'.data = c.data) (hsent : c'.sent = c.sent) (hhead : c'.head = c.head) :
-    ∀ u r q, rFact c u r q → rFact c' u r q :=
-  fun _ _ _ h => rFact_mono_S hn hrv hcl hcur hc0 hgot hdata ⟨[], by simp [hsent]⟩ (by omega) h
 
 theorem sent_ext_refl {a b : List Nat} (h : b = a) : ∃ e, b = a ++ e := ⟨[], by rw [h, List.append_nil]⟩
 
 /-- receivers' facts across a sender step, in terms of the states -/
 theorem rFact_S_of {s s' : State} (hn : s'.nextCell = s.nextCell) (hrv : s'.resv = s.resv)
     (hcl : s'.rclosed = s.rclosed) (hcur : s'.cur = s.cur) (hc0 : s'.c0 = s.c0) (hgot : s'.got = s.got)
-    (hdata : s'.lr.data = s.lr.data) (hsent : ∃ e, s'.sent = s.sent ++ e) (hhead : s.head ≤ s'.head) :
+    (hdata : s'.lr.data = s.lr.data) (hsent : ∃ e, s'.sent = s.sent ++ e) (hhead : s.head ≤ s'.head)
+    (hpd : s.pdropped = true → s'.pdropped = true ∧ s'.head = s.head) :
     ∀ u r q, rFact s.core u r q → rFact s'.core u r q :=
-  fun _ _ _ h => rFact_mono_S (c := s.core) (c' := s'.core) hn hrv hcl hcur hc0 hgot hdata hsent hhead h
+  fun _ _ _ h => rFact_mono_S (c := s.core) (c' := s'.core) hn hrv hcl hcur hc0 hgot hdata hsent hhead hpd h
 
+/-- … when the step touches none of `sent`, `head`, `producer_dropped` -/
+syntax "rf_same" : tactic
+macro_rules | `(tactic| rf_same) => `(tactic|
+  exact rFact_S_of rfl rfl rfl rfl rfl rfl rfl (sent_ext_refl rfl) (Nat.le_refl _) (fun h => ⟨h, rfl⟩))
+
+/-- an open sender handle means the producer has not been dropped -/
+theorem not_dropped {c : Core} (hg : GFact c) (h : c.sclosed = false) : c.pdropped = false := by
+  cases hp : c.pdropped
+  · rfl
+  · have := hg.pd_closed hp; rw [h] at this; cases this
+
+/-- plain step from a control state of the send path -/
 syntax "plainS " ident ident ident : tactic
 macro_rules | `(tactic| plainS $ha $hs $hpc) => `(tactic|
-  exact safe_S_plain $ha $hs $hpc rfl rfl rfl rfl rfl (by okS_tac) (by plain_tac) rfl)
+  exact safe_S_plain $ha $hs $hpc rfl rfl rfl rfl rfl (by okS_tac) (by plain_tac) rfl
+    (open_of_sFact (Safe.sf $hs _ _ $hpc) rfl))
+syntax "plainCS " ident ident ident : tactic
+macro_rules | `(tactic| plainCS $ha $hs $hpc) => `(tactic|
+  exact safe_S_plainC $ha $hs $hpc rfl rfl rfl rfl rfl (by okS_tac) (by plainC_tac) rfl)
 
 theorem safe_sEnter {s s' : State} {t : Nat} {k : ScanK} {h0 : Nat} {p : LPC} (ha : InvA s) (hs : Safe s)
     (hpc : s.pc t = .snd (.sEnter k h0 p)) (h : stepSEnter s t k h0 p = some s') : Safe s' := by
   have hf := hs.sf t _ hpc
   simp only [sFact] at hf
   obtain ⟨f1, f2, f3, f4⟩ := hf
-  have hi : idleLike s.core := ⟨f1, f2⟩
   unfold stepSEnter at h
   cases p <;> simp only [isRd] at f4 <;> (first | cases f4 | skip) <;> simp only [lrLabel, LeftRightB.step] at h
   case rLoad =>
@@ -100,7 +145,10 @@ theorem safe_sEnter {s s' : State} {t : Nat} {k : ScanK} {h0 : Nat} {p : LPC} (h
       · intro q' e
         unfold commitPC at e
         repeat' split at e
-        all_goals (cases e; show sFact s.core _; simp [sFact, f2]; first | exact f1 | exact ⟨f1, f3⟩)
+        all_goals (cases e; show sFact s.core _; dsimp only [sFact])
+        · exact ⟨f1, f2, fun _ hv => by simp at hv⟩
+        · exact ⟨f1, f2, fun _ hv => by simp at hv⟩
+        · exact ⟨f1, f2, f3, fun _ hr => by simp at hr, fun _ hv => by simp at hv, fun _ => rfl⟩
       · intro res e
         unfold commitPC at e
         repeat' split at e
@@ -113,7 +161,6 @@ theorem safe_sEnter {s s' : State} {t : Nat} {k : ScanK} {h0 : Nat} {p : LPC} (h
     cases h
     refine safe_S ha hs hpc rfl rfl rfl rfl (by okS_tac) hs.g ?_ (fun _ e => by cases e) (fun _ _ _ h => h)
     intro q' e; cases e; exact ⟨f1, f2, f3, rfl⟩
-
 
 theorem safe_sScan {s s' : State} {t : Nat} {k : ScanK} {h0 i : Nat} {done todo : List Nat} {m : Option Nat}
     (ha : InvA s) (hl : LRI s) (hs : Safe s)
@@ -137,8 +184,12 @@ theorem safe_sScan {s s' : State} {t : Nat} {k : ScanK} {h0 i : Nat} {done todo 
       intro x hx; rcases List.mem_append.1 hx with hx | hx
       · cases hm : m with
         | none => rw [f6 hm] at hx; simp at hx
-        | some v => subst hm; have := f5 v rfl x hx; have := omin_le_left (m := some v) (v := s.cur r) rfl; omega
+        | some v => subst hm; have := (f5 v rfl).1 x hx; have := omin_le_left (m := some v) (v := s.cur r) rfl; omega
       · simp at hx; subst hx; exact omin_le_right _ _
+    have hleN : omin m (s.cur r) ≤ s.core.sent.length := by
+      have := omin_le_right m (s.cur r); have := hs.g.cur_le r; show _ ≤ s.core.sent.length
+      have e : s.cur r = s.core.cur r := rfl
+      omega
     cases rest with
     | nil =>
       simp only [] at h
@@ -146,22 +197,20 @@ theorem safe_sScan {s s' : State} {t : Nat} {k : ScanK} {h0 i : Nat} {done todo 
       have hg' := gfact_lim hs.g hlb
       split at h
       · cases h
-        refine safe_S ha hs hpc rfl rfl rfl rfl (by okS_tac) hg' ?_ (fun _ e => by cases e) ?_
-        · intro q' e; cases e
-          show sFact { s.core with lim := max s.core.lim (omin m (s.cur r) + s.core.cap) } _
-          simp only [sFact]; exact ⟨f1, f2, by omega⟩
-        · exact rFact_S_of rfl rfl rfl rfl rfl rfl rfl (sent_ext_refl rfl) (Nat.le_refl _)
+        refine safe_S ha hs hpc rfl rfl rfl rfl (by okS_tac) hg' ?_ (fun _ e => by cases e) (by rf_same)
+        intro q' e; cases e
+        show sFact { s.core with lim := max s.core.lim (omin m (s.cur r) + s.core.cap) } _
+        simp only [sFact]; exact ⟨f1, f2, by omega, hleN⟩
       · rename_i hha
         cases h
-        refine safe_S ha hs hpc rfl rfl rfl rfl (by okS_tac) hg' ?_ (fun _ e => by cases e) ?_
-        · intro q' e; cases e
-          show sFact { s.core with lim := max s.core.lim (omin m (s.cur r) + s.core.cap) } _
-          simp only [sFact]
-          refine ⟨f1, f2, ?_⟩
-          intro v hv; cases hv
-          refine ⟨?_, by omega⟩
-          cases k <;> simp_all [hOK2, hOK, headAfter]
-        · exact rFact_S_of rfl rfl rfl rfl rfl rfl rfl (sent_ext_refl rfl) (Nat.le_refl _)
+        refine safe_S ha hs hpc rfl rfl rfl rfl (by okS_tac) hg' ?_ (fun _ e => by cases e) (by rf_same)
+        intro q' e; cases e
+        show sFact { s.core with lim := max s.core.lim (omin m (s.cur r) + s.core.cap) } _
+        simp only [sFact]
+        refine ⟨f1, f2, ?_⟩
+        intro v hv; cases hv
+        refine ⟨?_, by omega, hleN⟩
+        cases k <;> simp_all [hOK2, hOK, headAfter]
     | cons r2 rest2 =>
       simp only [] at h
       cases h
@@ -170,7 +219,7 @@ theorem safe_sScan {s s' : State} {t : Nat} {k : ScanK} {h0 i : Nat} {done todo 
       show sFact s.core _
       simp only [sFact]
       refine ⟨f1, f2, f3, hdone, ?_, fun hv => by cases hv⟩
-      intro v hv x hx; cases hv; exact hlbs x hx
+      intro v hv; cases hv; exact ⟨hlbs, hleN⟩
 
 theorem safe_sExit {s s' : State} {t : Nat} {k : ScanK} {h0 i : Nat} {L : List Nat} {m : Option Nat}
     (ha : InvA s) (hs : Safe s)
@@ -189,31 +238,39 @@ theorem safe_sExit {s s' : State} {t : Nat} {k : ScanK} {h0 i : Nat} {L : List N
     all_goals (try split at e)
     all_goals (try split at e)
     all_goals (cases e <;> simp only [sFact])
-    all_goals first | exact ⟨f1, f2⟩ | skip
+    all_goals first | exact ⟨f1, f2 rfl⟩ | skip
     · rename_i x mv hlt
-      have ⟨a, b⟩ := f3 mv rfl
+      have ⟨a, b, _⟩ := f3 mv rfl
       simp only [hOK2] at a
-      exact ⟨a.symm, by omega, by omega, by show h0 + 1 ≤ s.core.lim; have : s.cap = s.core.cap := rfl; omega, f2⟩
+      exact ⟨a.symm, by have := f1.1; omega, by omega,
+        by show h0 + 1 ≤ s.core.lim; have : s.cap = s.core.cap := rfl; omega, f1.2, f2 rfl⟩
     · rename_i x mv hk
-      have ⟨a, b⟩ := f3 mv rfl
+      have ⟨a, b, _⟩ := f3 mv rfl
       simp only [hOK2] at a
-      refine ⟨f1, f2, by omega, ?_⟩
+      refine ⟨f1, f2 rfl, by omega, ?_⟩
       unfold spaceK at *
       have : s.cap = s.core.cap := rfl
       omega
   · intro res e
-    exact ⟨f1, f2⟩
-
+    exact f1
 
 theorem safe_actS {s s' : State} {t : Nat} {p : SPC} (ha : InvA s) (hl : LRI s) (hs : Safe s)
     (hpc : s.pc t = .snd p) (h : actS s t p = some s') : Safe s' := by
   cases p <;> simp only [actS] at h
-  case sFlag x => cases h; unfold stepSFlag; split <;> plainS ha hs hpc
+  case sFlag x =>
+    cases h; unfold stepSFlag
+    have hi : idleLike s.core := hs.sf t _ hpc
+    split
+    · exact safe_S_plainC ha hs hpc rfl rfl rfl rfl rfl (by okS_tac) (by plainC_tac) rfl
+    · rename_i hc
+      exact safe_S_plain ha hs hpc rfl rfl rfl rfl rfl (by okS_tac) (by plain_tac) rfl
+        (by show s.sclosed = false; simpa using hc)
   case sHead k =>
     cases h
-    have hi := idle_of_sFact (hs.sf t _ hpc) rfl
+    have hf := hs.sf t _ hpc
+    simp only [sFact] at hf
     refine safe_S ha hs hpc rfl rfl rfl rfl (by okS_tac) hs.g ?_ (fun _ e => by cases e) (fun _ _ _ h => h)
-    intro q' e; cases e; exact ⟨hi.1, hi.2, hOK_self _ _, rfl⟩
+    intro q' e; cases e; exact ⟨hf.1, hf.2, hOK_self _ _, rfl⟩
   case sEnter k h0 p => exact safe_sEnter ha hs hpc h
   case sScan k h0 i done todo m => exact safe_sScan ha hl hs hpc h
   case sHead2 k i L m =>
@@ -223,19 +280,20 @@ theorem safe_actS {s s' : State} {t : Nat} {p : SPC} (ha : InvA s) (hl : LRI s) 
     refine safe_S ha hs hpc rfl rfl rfl rfl (by okS_tac) hs.g ?_ (fun _ e => by cases e) (fun _ _ _ h => h)
     intro q' e; cases e
     show sFact s.core _
-    dsimp only [sFact]
-    exact ⟨hf.1, hf.2.1, fun v hv => by cases hv; exact ⟨hOK2_self _ _, hf.2.2⟩⟩
+    simp only [sFact]
+    exact ⟨hf.1, hf.2.1, fun v hv => by cases hv; exact ⟨hOK2_self _ _, hf.2.2.1, hf.2.2.2⟩⟩
   case sExit k h0 i L m => exact safe_sExit ha hs hpc h
   case bHead x k =>
     cases h
     have hf := hs.sf t _ hpc
     simp only [sFact] at hf
+    obtain ⟨f1, f2, f3, f4⟩ := hf
     refine safe_S ha hs hpc rfl rfl rfl rfl (by okS_tac) hs.g ?_ (fun _ e => by cases e) (fun _ _ _ h => h)
     intro q' e; cases e
     show sFact s.core _
     dsimp only [sFact]
     have e1 : s.head = s.core.head := rfl
-    exact ⟨rfl, by have := hf.1; omega, hf.2.2.1, by rw [e1]; exact hf.2.2.2, hf.2.1⟩
+    exact ⟨rfl, by have := f1.1; omega, f3, by rw [e1]; exact f4, f1.2, f2⟩
   case wSeqLd x h0 j k =>
     cases h
     have hf := hs.sf t _ hpc
@@ -244,57 +302,57 @@ theorem safe_actS {s s' : State} {t : Nat} {p : SPC} (ha : InvA s) (hl : LRI s) 
     intro q' e; cases e
     show sFact s.core _
     dsimp only [sFact]
-    exact ⟨hf.1, hf.2.1, hf.2.2.1, hf.2.2.2.1, hf.2.2.2.2, rfl⟩
+    exact ⟨hf.1, hf.2.1, hf.2.2.1, hf.2.2.2.1, hf.2.2.2.2.1, rfl, hf.2.2.2.2.2⟩
   case wVal x h0 j k q =>
     cases h
     have hf := hs.sf t _ hpc
     simp only [sFact] at hf
-    obtain ⟨f1, f2, f3, f4, f5, f6⟩ := hf
+    obtain ⟨f1, f2, f3, f4, f5, f6, f7⟩ := hf
     have hN : s.core.sent.length = h0 + j := f2
     have hg' := gfact_wVal (v := x.items.getD j 0) hs.g (by omega)
     rw [hN] at hg'
-    refine safe_S ha hs hpc rfl rfl rfl rfl (by okS_tac) hg' ?_ (fun _ e => by cases e) ?_
-    · intro q' e; cases e
-      show sFact { s.core with val := upd s.core.val ((h0 + j) % s.core.cap) (x.items.getD j 0), dirty := true } _
-      dsimp only [sFact]
-      exact ⟨f1, f2, f3, f4, rfl, by simp⟩
-    · exact rFact_S_of rfl rfl rfl rfl rfl rfl rfl (sent_ext_refl rfl) (Nat.le_refl _)
+    refine safe_S ha hs hpc rfl rfl rfl rfl (by okS_tac) hg' ?_ (fun _ e => by cases e) (by rf_same)
+    intro q' e; cases e
+    show sFact { s.core with val := upd s.core.val ((h0 + j) % s.core.cap) (x.items.getD j 0), dirty := true } _
+    dsimp only [sFact]
+    exact ⟨f1, f2, f3, f4, rfl, by simp, f7⟩
   case wSeqSt x h0 j k =>
     cases h
     have hf := hs.sf t _ hpc
     simp only [sFact] at hf
-    obtain ⟨f1, f2, f3, f4, f5, f6⟩ := hf
+    obtain ⟨f1, f2, f3, f4, f5, f6, f7⟩ := hf
     have hN : s.core.sent.length = h0 + j := f2
     have hg' := gfact_wSeqSt (v := x.items.getD j 0) hs.g f5 (by rw [hN]; exact f6)
     rw [hN] at hg'
+    have hnd := not_dropped hs.g f7
     unfold stepWSeqSt
     split
     · refine safe_S ha hs hpc rfl rfl rfl rfl (by okS_tac) hg' ?_ (fun _ e => by cases e) ?_
       · intro q' e; cases e
-        show sFact { s.core with seq := upd s.core.seq ((h0 + j) % s.core.cap) (2 * (h0 + j) + 1),
-                                 sent := s.core.sent ++ [x.items.getD j 0], dirty := false } _
+        show sFact { s.core with seq := upd s.core.seq ((h0 + j) % s.core.cap) (2 * (h0 + j) + 1), sent := s.core.sent ++ [x.items.getD j 0], dirty := false } _
         dsimp only [sFact]; simp only [List.length_append, List.length_singleton]
-        exact ⟨f1, by omega, by omega, f4, trivial⟩
-      · exact rFact_S_of rfl rfl rfl rfl rfl rfl rfl ⟨[x.items.getD j 0], rfl⟩ (Nat.le_refl _)
+        exact ⟨f1, by omega, by omega, f4, trivial, f7⟩
+      · exact rFact_S_of rfl rfl rfl rfl rfl rfl rfl ⟨[x.items.getD j 0], rfl⟩ (Nat.le_refl _) (fun h => ⟨h, rfl⟩)
     · refine safe_S ha hs hpc rfl rfl rfl rfl (by okS_tac) hg' ?_ (fun _ e => by cases e) ?_
       · intro q' e; cases e
-        show sFact { s.core with seq := upd s.core.seq ((h0 + j) % s.core.cap) (2 * (h0 + j) + 1),
-                                 sent := s.core.sent ++ [x.items.getD j 0], dirty := false } _
+        show sFact { s.core with seq := upd s.core.seq ((h0 + j) % s.core.cap) (2 * (h0 + j) + 1), sent := s.core.sent ++ [x.items.getD j 0], dirty := false } _
         dsimp only [sFact]; simp only [List.length_append, List.length_singleton]
-        exact ⟨f1, by omega, trivial⟩
-      · exact rFact_S_of rfl rfl rfl rfl rfl rfl rfl ⟨[x.items.getD j 0], rfl⟩ (Nat.le_refl _)
+        exact ⟨f1, by omega, trivial, f7⟩
+      · exact rFact_S_of rfl rfl rfl rfl rfl rfl rfl ⟨[x.items.getD j 0], rfl⟩ (Nat.le_refl _) (fun h => ⟨h, rfl⟩)
   case wHeadSt x h0 k =>
     cases h
     have hf := hs.sf t _ hpc
     simp only [sFact] at hf
-    obtain ⟨f1, f2, f3⟩ := hf
+    obtain ⟨f1, f2, f3, f4⟩ := hf
     have hg' := gfact_head (h := h0 + k) hs.g (by omega)
+    have hnd : s.pdropped = false := not_dropped hs.g f4
     refine safe_S ha hs hpc rfl rfl rfl rfl (by okS_tac) hg' ?_ (fun _ e => by cases e) ?_
     · intro q' e; cases e
       show sFact { s.core with head := h0 + k } _
       dsimp only [sFact]
-      exact ⟨f2.symm, f3⟩
+      exact ⟨⟨f2.symm, f3⟩, f4⟩
     · exact rFact_S_of rfl rfl rfl rfl rfl rfl rfl (sent_ext_refl rfl) (by show s.core.head ≤ h0 + k; omega)
+        (fun h => by rw [hnd] at h; cases h)
   case wLockW x h0 j k acc =>
     unfold stepWLockW at h
     split at h
@@ -310,12 +368,13 @@ theorem safe_actS {s s' : State} {t : Nat} {p : SPC} (ha : InvA s) (hl : LRI s) 
   case aStore x => cases h; plainS ha hs hpc
   case aFence x =>
     cases h
-    have hi := idle_of_sFact (hs.sf t _ hpc) rfl
+    have hf := hs.sf t _ hpc
+    simp only [sFact] at hf
     refine safe_S ha hs hpc rfl rfl rfl rfl (by okS_tac) hs.g ?_ (fun _ e => by cases e) (fun _ _ _ h => h)
     intro q' e; cases e
     show sFact s.core _
     dsimp only [sFact]
-    refine ⟨hi.1, hi.2, ?_, rfl⟩
+    refine ⟨hf.1, fun _ => hf.2, ?_, rfl⟩
     split <;> simp [hOK]
   case dCas d =>
     cases h; unfold stepDCas
@@ -336,32 +395,31 @@ theorem safe_actS {s s' : State} {t : Nat} {p : SPC} (ha : InvA s) (hl : LRI s) 
   case pSpin x => cases h; plainS ha hs hpc
   case cFlag d =>
     cases h; unfold stepCFlag; split
-    · plainS ha hs hpc
-    · have hi := idle_of_sFact (hs.sf t _ hpc) rfl
-      refine safe_S ha hs hpc rfl rfl rfl rfl (by okS_tac) (gfact_sclosed hs.g) ?_ (fun _ e => by cases e) ?_
-      · intro q' e; cases e
-        show sFact { s.core with sclosed := true } _
-        dsimp only [sFact]; exact ⟨hi.1, hi.2, rfl⟩
-      · exact rFact_S_of rfl rfl rfl rfl rfl rfl rfl (sent_ext_refl rfl) (Nat.le_refl _)
+    · plainCS ha hs hpc
+    · have hi : idleLike s.core := hs.sf t _ hpc
+      refine safe_S ha hs hpc rfl rfl rfl rfl (by okS_tac) (gfact_sclosed hs.g) ?_ (fun _ e => by cases e) (by rf_same)
+      intro q' e; cases e
+      show sFact { s.core with sclosed := true } _
+      dsimp only [sFact]; exact ⟨hi, rfl⟩
   case cStore =>
     cases h
     have hf := hs.sf t _ hpc
     simp only [sFact] at hf
-    refine safe_S ha hs hpc rfl rfl rfl rfl (by okS_tac) (gfact_pdropped hs.g hf.2.2) ?_ (fun _ e => by cases e) ?_
+    refine safe_S ha hs hpc rfl rfl rfl rfl (by okS_tac) (gfact_pdropped hs.g hf.2) ?_ (fun _ e => by cases e) ?_
     · intro q' e; cases e
       show sFact { s.core with pdropped := true } _
-      dsimp only [sFact]; exact ⟨hf.1, hf.2.1⟩
-    · exact rFact_S_of rfl rfl rfl rfl rfl rfl rfl (sent_ext_refl rfl) (Nat.le_refl _)
+      dsimp only [sFact]; exact hf.1
+    · exact rFact_S_of rfl rfl rfl rfl rfl rfl rfl (sent_ext_refl rfl) (Nat.le_refl _) (fun _ => ⟨rfl, rfl⟩)
   case cLock j =>
     unfold stepCLock at h
     split at h
-    · cases h; split <;> plainS ha hs hpc
+    · cases h; split <;> plainCS ha hs hpc
     · cases h
   case cWake j ws =>
     unfold stepCWake at h
     split at h
     · cases h
-    · cases h; split <;> plainS ha hs hpc
-  case cUnlock j => cases h; unfold stepCUnlock; split <;> plainS ha hs hpc
+    · cases h; split <;> plainCS ha hs hpc
+  case cUnlock j => cases h; unfold stepCUnlock; split <;> plainCS ha hs hpc
 
 end Fv.Chan.SpmcB
